@@ -21,6 +21,7 @@ import (
 	"os"
 	"reflect"
 	"sort"
+	"strconv"
 	"strings"
 
 	"cuelabs.dev/go/oci/ociregistry"
@@ -39,6 +40,7 @@ type fnCase struct {
 	NilRecv bool     `json:"nilrecv"`
 	Sret    string   `json:"sret"`           // what the stubs return: "val" (value, nil error) or "err" (value and error)
 	ArgSeed int64    `json:"argseed,string"` // seed of the argument and result values
+	Av      []string `json:"av"`             // abstract argument values per parameter after the context (TLC: ArgProfiles), empty: generated
 	Pred    string   `json:"pred"`           // TLC's predicted outcome kind for exported cases, "-" otherwise (opaque here)
 }
 
@@ -206,6 +208,70 @@ func fnGenDigest(rnd *rand.Rand) string {
 		return "bogus:" + hex.EncodeToString(b[:4])
 	}
 	return "sha256:" + hex.EncodeToString(b)
+}
+
+// fnConcrete concretises an abstract argument value by the Go type of the parameter:
+// "dist" a distinctive ordinary value, "empty" the empty string / a non-nil empty reader or
+// slice, "nil" and "zero" the zero value, anything else an integer literal.
+func fnConcrete(t reflect.Type, a string, rnd *rand.Rand, k string) reflect.Value {
+	switch a {
+	case "dist":
+		switch {
+		case t.Kind() == reflect.String && t.Name() != "Digest":
+			v := reflect.New(t).Elem()
+			v.SetString(fmt.Sprintf("%s-%x", k, rnd.Int63()))
+			return v
+		case t.Kind() == reflect.String:
+			b := make([]byte, 32)
+			rnd.Read(b)
+			v := reflect.New(t).Elem()
+			v.SetString("sha256:" + hex.EncodeToString(b))
+			return v
+		case t.Kind() == reflect.Int || t.Kind() == reflect.Int64:
+			v := reflect.New(t).Elem()
+			v.SetInt(1000 + rnd.Int63n(1<<40))
+			return v
+		case t == fnBytesType:
+			b := make([]byte, 1+rnd.Intn(24))
+			rnd.Read(b)
+			return reflect.ValueOf(b)
+		}
+		return fnGen(t, rnd, k)
+	case "nil", "zero":
+		return reflect.Zero(t)
+	case "empty":
+		switch {
+		case t == fnReaderType:
+			return reflect.ValueOf(&fnReader{id: "empty-" + k}).Convert(t)
+		case t == fnBytesType:
+			return reflect.ValueOf([]byte{})
+		}
+		return reflect.Zero(t)
+	}
+	if t.Kind() == reflect.Int || t.Kind() == reflect.Int64 {
+		n, err := strconv.ParseInt(a, 10, 64)
+		if err == nil {
+			v := reflect.New(t).Elem()
+			v.SetInt(n)
+			return v
+		}
+	}
+	panic(fmt.Sprintf("harness: abstract argument value %q does not fit a parameter of type %v", a, t))
+}
+
+// fnSpecials lists the abstract values a parameter of type t may take in random cases.
+func fnSpecials(t reflect.Type) []string {
+	switch {
+	case t == fnReaderType || t == fnBytesType:
+		return []string{"nil", "empty", "dist"}
+	case t == fnDescType:
+		return []string{"zero", "dist"}
+	case t.Kind() == reflect.String:
+		return []string{"empty", "dist"}
+	case t.Kind() == reflect.Int || t.Kind() == reflect.Int64:
+		return []string{"0", "-1", "5", "3", "1", "dist"}
+	}
+	return []string{"dist"}
 }
 
 // fnRender projects a value to a string; identity-carrying values render as their tag.
@@ -417,6 +483,11 @@ func fnExec(c fnCase, fields []string) ev {
 	e := ev{"op": "call", "id": c.ID, "m": c.M, "F": actualF, "custom": custom, "nilrecv": tbl == nil,
 		"sret": c.Sret, "argseed": fmt.Sprint(c.ArgSeed), "pred": c.Pred, "prog": prog}
 	// the call
+	av := c.Av
+	if av == nil {
+		av = []string{}
+	}
+	e["av"] = av
 	var reg ociregistry.Interface = tbl
 	mv := reflect.ValueOf(reg).MethodByName(c.M)
 	if !mv.IsValid() {
@@ -425,8 +496,15 @@ func fnExec(c fnCase, fields []string) ev {
 	mt := mv.Type()
 	args := make([]reflect.Value, mt.NumIn())
 	arnd := rand.New(rand.NewSource(c.ArgSeed ^ 0x5eed))
+	if len(c.Av) > 0 && len(c.Av) != mt.NumIn()-1 {
+		panic(fmt.Sprintf("harness: case %d gives %d argument values for %s, which has %d parameters after the context", c.ID, len(c.Av), c.M, mt.NumIn()-1))
+	}
 	for i := range args {
-		args[i] = fnGen(mt.In(i), arnd, fmt.Sprintf("a%d", i))
+		if len(c.Av) > 0 && i > 0 {
+			args[i] = fnConcrete(mt.In(i), c.Av[i-1], arnd, fmt.Sprintf("a%d", i))
+		} else {
+			args[i] = fnGen(mt.In(i), arnd, fmt.Sprintf("a%d", i))
+		}
 		run.passed = append(run.passed, fnRender(args[i]))
 	}
 	got := []string{}
@@ -571,6 +649,15 @@ func fnCmd(args []string) error {
 				}
 			}
 			c.Custom = rnd.Intn(2) == 0
+		}
+		if rnd.Intn(2) == 0 {
+			mt := reflect.TypeOf((*ociregistry.Interface)(nil)).Elem()
+			mm, _ := mt.MethodByName(c.M)
+			c.Av = []string{}
+			for j := 1; j < mm.Type.NumIn(); j++ {
+				sp := fnSpecials(mm.Type.In(j))
+				c.Av = append(c.Av, sp[rnd.Intn(len(sp))])
+			}
 		}
 		cases = append(cases, c)
 	}
